@@ -13,7 +13,7 @@ import (
 
 func init() {
 	Register(&Scenario{Prop: "C08", Name: "eventlog-windows", Run: scenC08, SoftParks: true, Weight: 1,
-		Rule: "1-3 writer replicas of one event log; 3-12 (thorough 3-30) Add (one in four a burst of 2-3 concurrent writers, parked at the write-path points or free-running under seeded yields, with 0-2 concurrent List(-1) calls that must return everything listed before they started, in order) interleaved with replication under faults; after every quiescent step each replica's listing must only grow and keep relative order, respect causal order; at checkpoints (listing <= 14 entries) every combination of bound kind {none,gt,gte,lt,lte} x bound position x amount {unset,0,1,2,len-1,len,len+3,-1} is compared with the model window, and Get(hash) for every entry; non-trivial = >=3 entries and >=1 window check on a listing that contains entries of two writers or >=4 entries"})
+		Rule: "1-3 writer replicas of one event log; 3-12 (thorough 3-30) Add (one in four a burst of 2-3 concurrent writers, parked at the write-path points or free-running under seeded yields, with 0-2 concurrent List(-1) calls that must return everything listed before they started, in order) interleaved with replication under faults; after every quiescent step each replica's listing must only grow and keep relative order, respect causal order; at checkpoints (listing <= 14 entries) every combination of bound kind {none,gt,gte,lt,lte} x bound position x amount {unset,0,1,2,len-1,len,len+3,-1} is compared with the model window, and Get(hash) for every entry; each checkpoint begins by asking again for the lower bound the previous checkpoint on that replica asked for last (the listing may have grown by a merge in between); non-trivial = >=3 entries and >=1 window check on a listing that contains entries of two writers or >=4 entries"})
 }
 
 func scenC08(k *K) {
@@ -325,6 +325,21 @@ func c08Windows(k *K, c *Cluster, r int) (int, bool) {
 			k.Failf("C08/window/"+kind, "n%d query %s@%d amount=%s over a %d-entry listing returned positions %v, model says %v", r, kind, pos, as, len(L), positions(L, got), positions(L, want))
 		}
 	}
+	// first of all the bound this replica was asked for last, once more (a listing that grew
+	// by a merge since then has moved it), with no other lower bound in between
+	if last, ok := c08Last[k][r]; ok {
+		for pos, h := range L {
+			if h == last {
+				op, err := el.Get(context.Background(), cids[pos])
+				if err != nil || op == nil || op.GetEntry().GetHash().String() != h {
+					k.Failf("C08/get", "n%d Get(entry #%d), asked a second time after the listing had grown, returned %v err=%v", r, pos, op, err)
+				}
+				run("gte", pos, amounts[len(amounts)-1])
+				run("gte", pos, amounts[3])
+				k.W.Stat("same-bound-asked-again-after-listing-grew")
+			}
+		}
+	}
 	for _, am := range amounts {
 		run("none", 0, am)
 		for pos := range L {
@@ -340,8 +355,20 @@ func c08Windows(k *K, c *Cluster, r int) (int, bool) {
 		}
 		checks++
 	}
+	if c08Last[k] == nil {
+		c08Last[k] = map[int]string{}
+		k.cleanups = append(k.cleanups, func() { delete(c08Last, k) })
+	}
+	// the last lower bound of this checkpoint: a gt bound on an entry of the middle (the Get
+	// calls above went through the same path)
+	mid := k.C.Intn(len(L))
+	run("gt", mid, amounts[len(amounts)-1])
+	c08Last[k][r] = L[mid]
 	return checks, len(writers) >= 2 || len(L) >= 4
 }
+
+// c08Last: per run and replica, the entry used as the last lower bound of the last checkpoint
+var c08Last = map[*K]map[int]string{}
 
 func positions(L, sub []string) string {
 	idx := map[string]int{}
